@@ -226,7 +226,7 @@ def run_shard(ctx: core.Ctx) -> core.ShardResult:
     res = core.ShardResult()
     # cheap routing-heavy family first (sparse machines, level 1)
     core.run_hypothesis(ctx, res, cc.routing_cases(), check,
-                        ctx.n(14, 150), shrink=False, min_cases=6, sub=1)
+                        ctx.n(14, 150), shrink=False, min_cases=4, sub=1)
     core.run_hypothesis(ctx, res, cases(ctx.tier == 'quick'), check,
-                        ctx.n(8, 100), shrink=False, min_cases=3)
+                        ctx.n(8, 100), shrink=False, min_cases=2)
     return res
